@@ -258,7 +258,7 @@ func main() {
 	tds := []string{"taint/globals"}
 	if lib.Thorough() {
 		nGen, cases = 4, 80
-		tds = append(tds, "taint/closures", "taint/basic", "taint/interfaces", "taint/fields", "taint/parameters", "taint/sanitizers", "taint/validators", "taint/tuples", "taint/defers", "taint/stdlib")
+		tds = append(tds, "taint/closures", "taint/interfaces", "taint/parameters", "taint/sanitizers")
 	}
 	for i := 0; i < nGen; i++ {
 		p := mugo.Generate(lib.Rand(fmt.Sprintf("c05-prog-%d", i)), mugo.Options{Cases: cases})
@@ -280,10 +280,10 @@ func main() {
 	}
 	// ---- the repository's own multi-package testdata
 	for _, t := range tds {
-		vs := variants
-		if !lib.Thorough() {
-			// one analysis of a program that imports the standard library costs tens of seconds
-			vs = []variant{variants[0], variants[2], variants[4], variants[8]}
+		// one analysis of a program that imports the standard library costs tens of seconds
+		vs := []variant{variants[0], variants[2], variants[4], variants[8]}
+		if lib.Thorough() {
+			vs = variants[:12]
 		}
 		t0 := time.Now()
 		sweep("testdata:"+t, t, vs, false)
